@@ -139,6 +139,18 @@ def attribution_battery():
                       note="signal list order differs from header order"))
     b.append(Scenario("CLK Y\nC 1\nC 2\n", [("in", "CLK", 1, 0), ("out", "Y", 8)], default_answer=[1],
                       answers={3: [1], 6: [2]}, note="clocked"))
+    # fourth round: outputs the header does not mention but the driver supplies; rows that repeat their inputs while the
+    # device moves on
+    Sh = [("in", "A", 1, 0), ("out", "Y", 8), ("out", "B", 8), ("bidir", "D", 8, "Z")]
+    b.append(Scenario("A Y\n0 1\n1 2\n", Sh, layout=["Y", "B", "D"], default_answer=[1, 5, 6], answers={2: [2, 7, "Z"]},
+                      note="outputs and a bidirectional signal without a column still report what the driver returned"))
+    b.append(Scenario("A Y\n0 1\n1 2\n", Sh, layout=["D", "B"], default_answer=[9, 5], answers={2: [8, 7]},
+                      note="column-less signals, partial layout in another order"))
+    b.append(Scenario("A Y B\n1 X X\n1 X X\n1 X X\n1 3 3\n", Sh, layout=["Y", "B", "D"], default_answer=[0, 0, 0],
+                      answers={1: [1, 1, 1], 2: [2, 2, 2], 3: [3, 3, "Z"], 4: [4, 3, 4]},
+                      note="rows that repeat their inputs report the answer of their own call"))
+    b.append(Scenario("Y B\nX X\nX X\n2 X\n", [("out", "Y", 8), ("out", "B", 8)], layout=["Y", "B"], default_answer=[0, 0],
+                      answers={1: [1, 1], 2: [2, 2], 3: [3, 3]}, note="a test without input columns reports each call's answer"))
     # second-round additions: names differing only in case, layouts that are a prefix of the signal list, expected Z
     # against an unknown output
     Sc = [("in", "A", 1, 0), ("out", "q", 8), ("out", "Q", 8), ("out", "Data", 8), ("out", "DATA", 8)]
